@@ -36,7 +36,8 @@ CLAIMED = {
           "set_time/add_time/reset_start/update_noise. Every generated behaviour is replayed on real objects in "
           "identity, seeded-noise and chirp instantiations (dyadic, 187.5 MHz and 3 GHz rates, both orientations, "
           "real and complex custom sources) and the decoded sample identities, evaluation times, noise values, "
-          "clocks and flags are compared with TLC's post-state after every call."),
+          "clocks and flags are compared with TLC's post-state after every call. Refused requests (negative or fractional "
+          "counts) are actions of the model: they raise and leave clocks, flags and draw indices untouched."),
     note=("Trusted: TLC, identity decoding (custom sources returning round(t*rate)), reference noise from a copy of "
           "each stream's generator, chirp closed form at atol 1e-7*level (numeric projection outside TLC). One "
           "noise source per stream. Bounded: requests <= 4-6 samples, <= 3 antennas, sequences exhaustive to "
@@ -49,7 +50,8 @@ CLAIMED = {
           "maxDelay - delay), CacheIsUnusedTail, CacheClearedAtStart, BgConsecutive for all delay vectors over 0..2 "
           "(unsorted, repeated, all-zero, omitted) and request partitions. Replay on real arrays decodes own and "
           "background sample identities from identity-carrying sources and compares them, the cache lengths, "
-          "clocks and flags with TLC's post-state after every call; seeded noise is compared value for value."),
+          "clocks and flags with TLC's post-state after every call; seeded noise is compared value for value. A request not "
+          "above the largest delay is refused and leaves no trace (BadRequest action)."),
     note=("Trusted: TLC, identity decoding, reference noise draws. Bounded: <= 3 antennas, delays <= 2, requests <= 6, "
           "depth as C10. Requests must exceed the maximum delay (library precondition)."),
     technique="TLA+ model (TLC exhaustive) + spec-generated behaviours replayed on the implementation",
@@ -63,7 +65,9 @@ CLAIMED = {
           "objects; every output value must lie in TLC's admissible set and the counter/cached statistics must equal "
           "the model's after every call; quantize_real is driven over the same map. Leg T: the refresh schedule of every "
           "quantiser object inside real recordings (digitisers and requantisers per antenna / polarisation / component, "
-          "periods incl. <= 0, second recordings, the repository's voltage tests) is validated against QuantTrace.tla."),
+          "periods incl. <= 0, second recordings, the repository's voltage tests) is validated against QuantTrace.tla; the "
+          "refresh counter and 'cached statistics come from the most recent scheduled call' are proved inductively for any "
+          "period and any number of calls (Inductive.tla, Apalache, thorough tier)."),
     note=("Trusted: TLC, inputs built with exactly representable prefix mean/deviation (stats_calc_num_samples=2), "
           "+-1e30 as 'huge'. Bounded: bits 2..8, periods -2..4, K in {1,3}, <= 10 calls. Internal attributes "
           "stats_calc_indices/stats_cache are compared when present."),
@@ -78,7 +82,9 @@ CLAIMED = {
           "cache length compared with TLC's. For realistic (taps, branches, window) a harness-owned direct FIR+DFT "
           "definition, linearity, every composition of the stream into chunks (bit-for-bit vs one-shot), the FIR "
           "window design and get_pfb_voltages are checked numerically, several objects with the same taps x branches "
-          "product in one process and a scale leg (1024 branches, long streams) included."),
+          "product in one process, non-contiguous inputs (column of an interleaved buffer, every other sample) and a scale "
+          "leg (1024 branches, long streams) included; the tail-cache counter is proved inductively for any number of "
+          "windows (Inductive.tla, Apalache, thorough tier)."),
     note=("Trusted: TLC, numpy FFT-free direct definition with explicit DFT matrix (1e-9 relative), scipy firwin as "
           "the window definition. Exact leg bounded to B in {2,4}, taps in {2,3}, <= 6 windows; numeric leg to "
           "B <= 1024, taps <= 16."),
@@ -103,7 +109,10 @@ CLAIMED = {
           "of the source and of every stream, channelize input/cache/output rows, updated num_subblocks, block count) "
           "against BackendTrace.tla. Blocks beyond 2^16 spectra are recorded in a scale leg; the thorough tier discharges "
           "the sub-block plan lemma (fixed point, cover, last partial sub-block) for all sizes with Apalache "
-          "(ArithLemmas.tla)."),
+          "(ArithLemmas.tla) and the inductive invariant of the sub-block loop and of the blocks / files / PKTIDX counters "
+          "(Inductive.tla). Backend.tla's Abort action (the voltage source raises on the 2nd or 3rd request of an attempt) "
+          "puts a failed recording before the judged ones: the failure must propagate and the next record() must write "
+          "what it would have written anyway."),
     note=("Trusted: TLC, the reference pipeline and GUPPI encoder/parser in /verif/harness, numpy arithmetic. "
           "Statistics from a common prefix (period -1); 1-LSB tolerance only within 1e-7 of a rounding tie of the "
           "reference. Bounded: taps 2-3, <= 7 windows/block, <= 3 blocks, branches 8/16."),
@@ -121,7 +130,8 @@ CLAIMED = {
           "antenna/array are parsed by the independent parser into traces validated by RawFilesTrace.tla (position, "
           "padding, BLOCSIZE, PKTIDX step, owned fields, user cards, file count). Backend.tla adds BlocksPerFile / "
           "PktIdxStep over two recordings per process. Recordings made before / next to existing files of the same stem, "
-          "END-prefixed card names and the DIRECTIO padding rule for all header lengths (Apalache, thorough tier) are covered."),
+          "END-prefixed card names, headers of 128 cards and more, and the DIRECTIO padding rule for all header lengths "
+          "(Apalache, thorough tier) are covered."),
     note=("Trusted: TLC, the independent parser/writer harness/guppi.py, float comparison of header values at 1e-12 "
           "relative (card text formatting is a projection). Empty-string card values are not exercised."),
     technique="TLA+ model (TLC exhaustive) + trace validation of recorded files + spec-generated directories read by the implementation",
